@@ -341,6 +341,20 @@ def run(repo: Repo, chk: Check, thorough: bool = False) -> None:
                        f'`except {norm(n.type) if n.type else ""}` around {norm(risky[0])[:40]} would swallow _Maxlines/_Linebreak', repo.loc(f.mod, n))
     chk.require('R15.5', 8)
 
+    # a value shown inline (defaults, annotations, decorators: maxlines=1) must not be allowed to break the line: with line breaks allowed a
+    # string containing a newline is opened with ''' and cut after the first line - the displayed text is no expression any more
+    ci = repo.func('pydoctor.epydoc.markup._pyval_repr.colorize_inline_pyval')
+    mk = [c for c in calls_in(ci) if call_name(c) in ('colorize_pyval', 'PyvalColorizer')]
+    if not mk:
+        raise AnalysisError('R15.5: colorize_inline_pyval no longer builds its colorizer through colorize_pyval / PyvalColorizer')
+    for c in mk:
+        lb = next((k.value for k in c.keywords if k.arg == 'linebreakok'), None)
+        oklb = isinstance(lb, ast.Constant) and lb.value is False
+        chk.ob('R15.5', f'{COL.rsplit(".", 1)[0]}.colorize_inline_pyval :: inline values are colorized with linebreakok=False', oklb,
+               norm(c)[:80] if oklb else
+               f'`{norm(c)[:80]}` leaves linebreakok at its default (True) while maxlines is 1: the default `sep=\'\\n\'` is displayed as `sep=\'\'\'` + "..." '
+               '- not valid Python', repo.loc(ci.mod, c))
+
     # ------------------------------------------------------------------ R15.6 control characters keep their value
     check_control_escape(repo, chk, 'R15.6')
 
